@@ -231,11 +231,15 @@ def mutation_test():
             st, det, failed = build_props(SCRATCH)
             subprocess.run(["git", "-C", SCRATCH, "checkout", "--", file], check=True)
             caught = st != "proved"
-            scoped = failed == set(group_of(what))          # exactly the mutated function's group fails, all others build
+            expected = set(group_of(what))
+            for g, deps in translate.GROUP_DEPS.items():          # … and the groups that call into it
+                if expected & set(deps):
+                    expected.add(g)
+            scoped = failed == expected                        # exactly these fail, all others build
             ok &= caught and scoped
             rows.append({"kind": "mutation", "what": what, "outcome": st, "where": det[:4], "failed_groups": sorted(failed), "scoped": scoped})
             print(f"  MUTATION {'caught' if caught else 'MISSED'} [{st}] groups failing: {sorted(failed)} "
-                  f"{'(only its own)' if scoped else 'SCOPE VIOLATED, expected ' + str(group_of(what))} {what}: "
+                  f"{'(only its own)' if scoped else 'SCOPE VIOLATED, expected ' + str(sorted(expected))} {what}: "
                   f"{'; '.join(str(d)[:120] for d in det[:3])}  ({time.time() - t0:.1f} s)")
         for file, pairs, what in REWRITES:
             t0 = time.time()
